@@ -270,6 +270,35 @@ def oracle(ck, tier, deep):
     ck.sample(dict(suite="S.wrappers", wrappers=[p[0] for p in pairs][:8]))
 
 
+def oracle_angular(ck, tier):
+    """`Transform(..., angular_integration=True).angular_integration` is `angular_integration_3D` of the transformed image with the pixel
+    size of that call (and the caller's integration options) — call after call in one process, with dr given, not given, given again"""
+    import abel
+    from abel.tools.vmi import angular_integration_3D
+    rng = np.random.default_rng(seed() + 1717)
+    for method in (["two_point", "hansenlaw"] if tier == "quick" else ["two_point", "three_point", "onion_peeling", "hansenlaw", "basex", "daun"]):
+        im = rng.random((15, 15)) + 0.1
+        session = [dict(dr=0.5), dict(), dict(dr=2.0), dict()]
+        for k, topt in enumerate(session):
+            aopt = [None, dict(), dict(dt=0.1), None][k]
+            ck.count(("S.angular", method, k), suite="S.oracle")
+            rep = dict(method=method, call=k, transform_options=topt, angular_integration_options=aopt, session=[str(s_) for s_ in session[:k + 1]])
+            try:
+                kw = dict(transform_options=dict(topt, **({"basis_dir": None} if method not in ("hansenlaw",) else {})))
+                if aopt is not None:
+                    kw["angular_integration_options"] = aopt
+                Tr = quiet(abel.Transform, im, method=method, angular_integration=True, **kw)
+                want = quiet(angular_integration_3D, Tr.transform, **dict(aopt or {}, **({"dr": topt["dr"]} if "dr" in topt else {})))
+            except Exception as e:
+                ck.violation(dict(site="Transform", clause="exception"), rep, f"{type(e).__name__}: {e}")
+                continue
+            got = Tr.angular_integration
+            if len(got) != len(want) or any(np.shape(a) != np.shape(b) or not np.allclose(a, b, rtol=1e-12, atol=0) for a, b in zip(got, want)):
+                ck.violation(dict(site="Transform", clause="angular-integration-session"), rep,
+                             f"call {k} of a session ({method}, transform_options={topt}): Transform.angular_integration is not "
+                             f"angular_integration_3D of its own transform with this call's pixel size")
+
+
 def run(tier):
     ck = Check("C17", tier)
     deep = tier == "thorough"
@@ -296,6 +325,7 @@ def run(tier):
     else:
         ck.broken.append(dict(kind="proof", module="pyabel_drv", why="driver build failed", log=log[-1500:]))
     oracle(ck, tier, deep or bool(ck.broken))
+    oracle_angular(ck, tier)
     from harness import daunmachine
     daunmachine.run_sessions(ck, tier, suite="K.daun-cache")          # zero strength / no regularisation / regularised requests in any order vs the cache machine of C07Daun
     return ck.finish()
